@@ -183,15 +183,19 @@ def _check_port(spec, stats):
         stats.label("construct_internal_error")
         return
     comp = built.comp
-    for name, role in built.bus_ports:
+    stats.label("accepted:" + spec["cls"])
+    for name, role, ctor in built.bus_ports:
+        stats.label("wb_port_addr_width_0", role != "csr_target" and ctor["addr_width"] == 0)
         stats.label("port:" + role)
         port = getattr(comp, name)
+        # the complementary interface is built from the parameters the *constructor was given*
+        # (what the user knows), falling back to what the port reports where the constructor derives them
         if role == "csr_target":
-            sig = csr.Signature(addr_width=port.addr_width, data_width=port.data_width)
+            sig = csr.Signature(addr_width=ctor.get("addr_width", port.addr_width), data_width=ctor["data_width"])
             flow = In
         else:
-            sig = wishbone.Signature(addr_width=port.addr_width, data_width=port.data_width,
-                                     granularity=port.granularity, features=port.features)
+            sig = wishbone.Signature(addr_width=ctor["addr_width"], data_width=ctor["data_width"],
+                                     granularity=ctor["granularity"], features=ctor["features"])
             flow = In if role == "wb_target" else Out
         m = Module()
         try:
